@@ -403,6 +403,24 @@ def catalogue():
                             holder["obj"] = cls(v1=np.array([0.0, 0.0, 1.0]), v2=np.array([1.0, 0.0, 2.0])) if cname == "TRIAD" else cls(**opts)
                         return getattr(holder["obj"], mname)(**a)
                     items.append(("%s.%s[one object, %s]" % (cname, mname, "defaults" if not opts else ",".join("%s=%s" % kv for kv in opts.items())) + ("[%d]" % variant), calls, margs2))
+    # the geodesy / geomagnetism helpers (scalar arguments: repeatability, process-wide settings and the 0-d array form apply)
+    from ahrs.utils import wgs84 as WGSM, wmm as WMMM
+    items.append(("wgs84.international_gravity", lambda a: WGSM.international_gravity(**a), {"lat": 48.137}))
+    items.append(("wgs84.international_gravity[1967]", lambda a: WGSM.international_gravity(**a), {"lat": -33.5, "epoch": "1967"}))
+    items.append(("wgs84.welmec_gravity", lambda a: WGSM.welmec_gravity(**a), {"lat": 48.137, "h": 519.0}))
+    items.append(("wmm.geodetic2spherical", lambda a: WMMM.geodetic2spherical(**a), {"lat": 0.84, "lon": 0.2, "h": 0.519}))
+    ell = WGSM.WGS()
+    for mname in ("normal_gravity", "meridian_curvature_radius", "vertical_curvature_radius", "normal_gravity_potential"):
+        fn = getattr(ell, mname, None)
+        if fn is None or not callable(fn):
+            continue
+        pars = [p_ for p_ in inspect.signature(fn).parameters]
+        vals = {"lat": 48.137, "h": 519.0, "latitude": 48.137, "height": 519.0}
+        if all(p_ in vals or inspect.signature(fn).parameters[p_].default is not inspect._empty for p_ in pars):
+            items.append(("WGS.%s[one object]" % mname, (lambda a, fn=fn: fn(**a)), {p_: vals[p_] for p_ in pars if p_ in vals}))
+    items.append(("WMM(date, place)", lambda a: WMMM.WMM(**a).magnetic_elements, {"date": 2022.5, "latitude": 48.137, "longitude": 11.575, "height": 0.519}))
+    wm = WMMM.WMM()
+    items.append(("WMM.magnetic_field[one object]", (lambda a: (wm.magnetic_field(**a), dict(wm.magnetic_elements))[1]), {"latitude": -33.9, "longitude": 151.2, "height": 0.05, "date": 2023.25}))
     return items
 
 
